@@ -55,6 +55,18 @@ decreasing_by omega
 /-- index of the highest set bit (C `highest_one`, argument non-zero) -/
 def highestOne (n : Nat) : Nat := Nat.log2 n
 
+/-- `Vec::pop().unwrap()` / `ArrayVec::pop().unwrap()`: the last element and the rest; panics on an empty stack -/
+def pop {α : Type} (s : List α) : R (α × List α) :=
+  match s.getLast? with
+  | some x => .ok (x, s.dropLast)
+  | none => .panic
+
+/-- slice indexing `s[i]`: panics when out of bounds -/
+def getIdx {α : Type} (s : List α) (i : Nat) : R α :=
+  match s[i]? with
+  | some x => .ok x
+  | none => .panic
+
 def assertEq (a b : Nat) : R Unit := if a = b then .ok () else .panic
 def assertTrue (c : Bool) : R Unit := if c then .ok () else .panic
 
